@@ -33,7 +33,7 @@ def rules_for(prop):
         "C12": [num.rule_nm1, ag.rule_ag4, named(scan.rule_pu1, files=("rxsci/math/sum.py", "rxsci/math/mean.py", "rxsci/math/min.py", "rxsci/math/max.py",
                                                           "rxsci/math/variance.py", "rxsci/math/stddev.py", "rxsci/math/formal/variance.py",
                                                           "rxsci/math/formal/stddev.py", "rxsci/math/formal/__init__.py"))],
-        "C13": er.RULES + [mx.rule_wc2, st.rule_st8],
+        "C13": er.RULES + [mx.rule_wc2, st.rule_st8, mx.rule_ev1],
         "C14": ms.RULES,
         "C15": [io.rule_framing],
         "C16": [io.rule_compression],
@@ -59,14 +59,14 @@ EXPLANATION = {
     "C01": _COMMON + "Decided clauses: AG-1 every operator documented as dual-mode has a mux arm or is composed only of dual-mode rxsci "
            "operators (RxPY operators only in plain arms); AG-2 both arms of each of the 13 dispatch sites receive the same user parameters; "
            "AG-3 the operators implemented twice in the repo (scan, flat_map, assert_1, tee_map join) have equal per-item / completion "
-           "skeletons; AG-3b unset markers of siblings; AG-3m map / filter on a MuxObservable apply the user function to the item exactly once, map emits its result in place, filter keeps the item iff the result is truthy (as rx.operators.filter); AG-3d do_action on a MuxObservable runs each callback exactly once for the events of its kind (on_next on the item, on_error on the error), before forwarding the event unchanged; SD-2 a scan seeded with an int / bool literal never accumulates in a fixed-width store; FW-2 first/take/last emit what their list definition (and RxPY) says; SC-1 fold skeleton of scan; TM-4 and ST-5 tee_map join skeleton and reset of the join slots at the end of a key (state left over for the next key served by the same index makes the two arms disagree). Not decided: that a *_mux body equals the RxPY operator of the plain arm.",
+           "skeletons; AG-3b unset markers of siblings (assert_1; scan on an Observable decides 'no accumulator yet' by its own flag, raised whenever an accumulator is stored, never by looking at the accumulator); AG-3m map / filter on a MuxObservable apply the user function to the item exactly once, map emits its result in place, filter keeps the item iff the result is truthy (as rx.operators.filter); AG-3d do_action on a MuxObservable runs each callback exactly once for the events of its kind (on_next on the item, on_error on the error), before forwarding the event unchanged; SD-2 a scan seeded with an int / bool literal never accumulates in a fixed-width store; FW-2 first/take/last emit what their list definition (and RxPY) says; SC-1 fold skeleton of scan; TM-4 and ST-5 tee_map join skeleton and reset of the join slots at the end of a key (state left over for the next key served by the same index makes the two arms disagree). Not decided: that a *_mux body equals the RxPY operator of the plain arm.",
     "C02": _COMMON + "Decided clauses: ST-1 mux handlers write no closure data outside the Probe branch; ST-2 every state id is add_key'd "
            "on every creation path; ST-3 indices used during a lifetime are included in those initialised at creation (affine index sets "
            "key[0], key[0]*D+[0,D)); ST-4 no use after del_key; ST-5 tee_map join table reset covers the slots written; ST-6 injective child "
            "indices; ST-8 every store call passes (state id, key): the state id never comes from the event, the key does; ST-7 state defaults handed to the store are immutable (a mutable default would be shared by every key); WC-1 frame condition on the store (by reachability from the mux handlers); MS-1..5 add_key/del_key/set/get of the memory store (re-initialisation at creation); TM-5 join table growth; SD-1 the scan seed reaches per-key state only through seed() / deepcopy(seed). Not decided: values; user closures.",
     "C03": _COMMON + "Per-operator protocol preservation for the 32 MuxObservable construction sites: MX-1..4 per-kind lifecycle "
            "obligations, LV typestate of child keys in the five grouping heads (ghost state P = liveness downstream, S = liveness recorded in "
-           "the store, invariant S = P while the parent is live), MX-5 sandwich and demux, MX-6 root, MX-7 tee_map de-duplication, MX-8 "
+           "the store, invariant S = P while the parent is live), MX-5 sandwich and demux, EV-1 event typing (a handler reads only the fields the event kind has on every path of that kind; events sent on carry the store of the event handled; the event classes of the tree have the field lists the model assumes, else exit 2), MX-6 root (and with_store on several sources: probe, then set_topology, then subscribe), ST-8 store call arguments, MX-7 tee_map de-duplication, MX-8 "
            "terminals add no events, WC-2 constructor frame. The induction over composition is stated in DESIGN.md, not mechanised.",
     "C04": _COMMON + "Decided clauses: EQ-1 no identity comparison on user values in group_by / MemoryStore; FW-1 every item is forwarded "
            "unchanged to exactly the child whose index is the map entry of key_mapper(item); FL-1 open groups are flushed by iterating the "
@@ -84,7 +84,7 @@ EXPLANATION = {
     "C08": _COMMON + "Decided clauses: TM-1 connect() after all len(sources) branches are subscribed; TM-2/3 one published connectable "
            "shared by all branches; TM-4 join skeleton per mode over the key's slice of n slots; TM-5 table growth to (key[0]+1)*n; ST-5 join table reset; MX-7 lifecycle "
            "de-duplication; AG-3 mux and plain joins agree. Not decided: behaviour of the branches themselves.",
-    "C09": _COMMON + "Decided clauses: SD-1 the seed reaches accumulator/terminator/state/output only through seed() or deepcopy(seed) "
+    "C09": _COMMON + "Decided clauses: SD-1 the seed reaches accumulator/terminator/state/output only through seed() or deepcopy(seed), seed() exactly where callable(seed) holds "
            "(13 scan call sites classified); SD-2 typed state of literal seeds; SC-1 fold skeleton per (reduce, terminator); SC-2 count adds exactly 1 per item whatever the item, to_list / to_array append the item itself once and return the collection; AG-3 scan_mux = scan_obs skeletons; PU-1 "
            "accumulators do not mutate items or free state and mappers downstream of a scan do not mutate the live accumulator.",
     "C10": _COMMON + "Decided clauses: FW-2 per-path emission multiplicity and bookkeeping of first, take (countdown > 0, minus exactly 1), "
@@ -102,7 +102,7 @@ EXPLANATION = {
     "C13": _COMMON + "Decided clauses: ER-1 every user call of map/filter/scan is inside a try catching Exception whose handler emits exactly "
            "one OnErrorMux(key, exception, store), no state was written before the raise and the key's state is neither released nor "
            "re-created by the failing item; ER-2 ignore / error.map / router behaviour "
-           "per kind incl. dead-letter completion order; ER-3 both demultiplexers turn a mux error into on_error; WC-2.",
+           "per kind incl. dead-letter completion order; ER-3 both demultiplexers turn a mux error into on_error; WC-2; ST-8 / EV-1 the Error branches of the stateful operators downstream are well-formed (store call arguments, event fields) although no test sends an error through them.",
     "C14": _COMMON + "Induction over operation sequences: every MemoryStore method preserves the representation invariant and the frame: "
            "MS-1 lock-step growth up to key[0]; MS-2 writes only at key[0]; MS-3 marker table; MS-4 allocator freshness; MS-5 typecode table; "
            "MS-6 the 18 forwarders of StoreManager/Store pass the same arguments in order; MS-7 is_set / is_cleared read the marker of slot key[0] and iterate yields (key, value, is-set) for exactly the slots not CLEARED. Not decided: value read-back beyond typecodes.",
